@@ -170,6 +170,18 @@ def run(chk: Check) -> None:
     sr = [c for c in calls_in_func(od, 'set_result')]
     ok = ok and len(sr) == 1 and [norm(a) for a in sr[0].args] == [rv2]
     chk.ob('FUT-unwrap', od, ok, 'a loop future resolving to a loop future is mirrored recursively, the final value is delivered', kind='nested-converted')
+    # "a loop future" is what that isinstance test accepts: plumpy's ``futures.Future`` IS ``asyncio.Future``, so tasks, loop.create_future() and wrapped
+    # futures all count.  Made a class of its own, only plumpy's instances do: a coroutine answering with a plain asyncio future / task is delivered as
+    # the future OBJECT, the caller never sees the inner value, error or cancellation
+    fm = prog.module('futures')
+    fv = fm.constants.get('Future')
+    okf = fv is not None and norm(fv) in ('asyncio.Future', 'asyncio.futures.Future')
+    test_cls = [norm(n.test) for n in conv] if conv else []
+    uses_alias = bool(test_cls) and all(('futures.Future' in t or 'asyncio.Future' in t) for t in test_cls)
+    chk.ob('FUT-unwrap', 'futures.Future', (okf or not any('futures.Future' in t for t in test_cls)) and uses_alias,
+           'the nested-future test recognises every asyncio future (futures.Future is asyncio.Future itself)' if okf else
+           'futures.Future is no longer asyncio.Future itself: the nested-future test of the mirror misses loop futures that are not instances of the new class',
+           kind='loop-future-is-asyncio-future', expr='Future')
     rc = prog.func('processes.Process._schedule_rpc.run_callback')
     loops = [n for n in ast.walk(rc.node) if isinstance(n, ast.While) and 'isfuture(result)' in norm(n.test)]
     ok = bool(loops) and any(isinstance(s, ast.Assign) and norm(s.targets[0]) == 'result' and isinstance(s.value, ast.Await)
